@@ -69,7 +69,7 @@ func GenCfg(g *vh.Gen, o Opts) (Cfg, []string) {
 	for j := range pool {
 		pool[j] = genDomain(g)
 	}
-	pool = append(pool, "[127.0.0.1]")
+	pool = append(pool, "[127.0.0.1]", "[IPv6:2001:db8::25]")
 	c := Cfg{Naming: g.Pick("local", "full", "domain"), MaxRcpt: g.Pick2(200, 200, 200, 200, 3, 2, 1, 0), MaxBytes: 10240000,
 		DA: g.Chance(0.85), DS: g.Chance(0.85), Store: g.Pick("mem", "file")}
 	c.Acc, c.Rej = genList(g, pool, false), genList(g, pool, false)
